@@ -368,4 +368,22 @@ func genC16w(tier string, r *rng) {
 	}
 }
 
-func init() { register("C16", genC16w) }
+func init() { register("C16", genC16w); register("C16", genC16rf) }
+
+// genC16rf: ws.ReadFrame (whole-frame read) on frames cut inside the payload, across the length forms.
+func genC16rf(tier string, r *rng) {
+	for _, n := range []int{1, 2, 125, 126, 300, 65535, 65536, 65537, 70000} {
+		for _, masked := range []bool{false, true} {
+			full := frameBytes(true, 0, ws.OpBinary, masked, r.bytes(n))
+			hdr := len(full) - n
+			for _, cut := range []int{hdr, hdr + 1, hdr + n/2, len(full) - 1} {
+				if cut < hdr || cut >= len(full) {
+					continue
+				}
+				for _, fin := range []string{"E", "F"} {
+					run(fmt.Sprintf("rf %s %d %s", hx(full[:cut]), []int{0, 1000, 7}[(n+cut)%3], fin))
+				}
+			}
+		}
+	}
+}
